@@ -270,7 +270,7 @@ func LiveMPD(a *asset, mpdName string, cfg *ResponseConfig, drmCfg *drm.DrmConfi
 				return nil, fmt.Errorf("adjustASForTimelineTime: %w", err)
 			}
 			if asIdx == 0 {
-				mpd.PublishTime = m.ConvertToDateTime(calcPublishTime(cfg, se.lsi))
+				mpd.PublishTime = m.ConvertToDateTime(calcPublishTime(cfg, se, wTimes))
 			}
 		case timeLineNumber:
 			err := adjustAdaptationSetForTimelineNr(cfg, se, as)
@@ -278,7 +278,7 @@ func LiveMPD(a *asset, mpdName string, cfg *ResponseConfig, drmCfg *drm.DrmConfi
 				return nil, fmt.Errorf("adjustASForTimelineNr: %w", err)
 			}
 			if asIdx == 0 {
-				mpd.PublishTime = m.ConvertToDateTime(calcPublishTime(cfg, se.lsi))
+				mpd.PublishTime = m.ConvertToDateTime(calcPublishTime(cfg, se, wTimes))
 			}
 		case segmentNumber:
 			err := adjustAdaptationSetForSegmentNumber(cfg, a, as)
@@ -703,14 +703,26 @@ func addTimeSubs(cfg *ResponseConfig, a *asset, period *m.Period, languages []st
 }
 
 // calcPublishTime calculates the last time there was a change in the manifest in seconds.
-func calcPublishTime(cfg *ResponseConfig, lsi lastSegInfo) float64 {
+func calcPublishTime(cfg *ResponseConfig, se segEntries, wt wrapTimes) float64 {
 	switch cfg.liveMPDType() {
 	case segmentNumber:
 		// For single-period case, nothing change after startTime
 		return float64(cfg.StartTimeS)
 	case timeLineTime, timeLineNumber:
-		// Here we need the availabilityTime of the last segment
-		return lastSegAvailTimeS(cfg, lsi)
+		// The timeline changes when a new segment is added at the live edge,
+		// but also when the oldest segment leaves the timeShiftBuffer.
+		publishTime := lastSegAvailTimeS(cfg, se.lsi)
+		windowFull := wt.startTimeMS > cfg.StartTimeS*1000 // Otherwise nothing has left the buffer yet
+		if windowFull && se.startNr > 0 && len(se.entries) > 0 && se.entries[0].T != nil && cfg.TimeShiftBufferDepthS != nil {
+			first := se.entries[0]
+			firstEndS := float64(*first.T+first.D) / float64(se.mediaTimescale)
+			// The first listed segment became the first when it had ended tsbd ago (given availabilityTimeOffset)
+			firstChange := float64(cfg.StartTimeS) + firstEndS - cfg.AvailabilityTimeOffsetS + float64(*cfg.TimeShiftBufferDepthS)
+			if firstChange > publishTime {
+				publishTime = firstChange
+			}
+		}
+		return publishTime
 	default:
 		panic("liveMPD type not yet implemented")
 	}
